@@ -14,11 +14,11 @@ open GoBatcher
 theorem facts_C14_validate_order :
     Facts.v1_validateOrder = validateOrderNames ∧ Facts.v2_validateOrder = validateOrderNames := by decide
 
-/-- … with the modelled comparison operators -/
+/-- … with the modelled comparison operators (local names by position: §0 receiver, §1 the operation, §3 the watcher's MaxAttempts) -/
 theorem facts_C14_validate_conditions :
-    Facts.v1_validateConds = ["op == nil", "op.Watcher() == nil",
-      "r.ratelimiter != nil && op.Cost() > r.ratelimiter.MaxCapacity()",
-      "maxAttempts > 0 && op.Attempt() >= maxAttempts"] ∧
+    Facts.v1_validateConds = ["§1 == nil", "§1.Watcher() == nil",
+      "§0.ratelimiter != nil && §1.Cost() > §0.ratelimiter.MaxCapacity()",
+      "§3 > 0 && §1.Attempt() >= §3"] ∧
     Facts.v2_validateConds = Facts.v1_validateConds := by decide
 
 /-- the demand is counted before the operation is inserted, with the verification hook in between -/
@@ -36,11 +36,11 @@ theorem facts_C16_setter_guards :
 
 /-- the defaults `applyDefaults` installs are the model's (nanoseconds), in both generations -/
 theorem facts_C02_C11_C12_C13_C19_default_values :
-    Facts.v2_defaults = ["r.flushInterval <= 0|r.flushInterval|" ++ toString defFlush,
-                         "r.capacityInterval <= 0|r.capacityInterval|" ++ toString defCap,
-                         "r.auditInterval <= 0|r.auditInterval|" ++ toString defAudit,
-                         "r.maxOperationTime <= 0|r.maxOperationTime|" ++ toString defMot,
-                         "r.pauseTime <= 0|r.pauseTime|" ++ toString defPause] ∧
+    Facts.v2_defaults = ["§0.flushInterval <= 0|§0.flushInterval|" ++ toString defFlush,
+                         "§0.capacityInterval <= 0|§0.capacityInterval|" ++ toString defCap,
+                         "§0.auditInterval <= 0|§0.auditInterval|" ++ toString defAudit,
+                         "§0.maxOperationTime <= 0|§0.maxOperationTime|" ++ toString defMot,
+                         "§0.pauseTime <= 0|§0.pauseTime|" ++ toString defPause] ∧
     Facts.v1_defaults = Facts.v2_defaults := by decide
 
 /-- Enqueue takes the cost back when the buffer refuses the operation (fix of findings F1/F2) -/
